@@ -2,7 +2,7 @@
    Statements only; proofs in Proofs/TrimWindowP.v, Proofs/MaskP.v, Proofs/WriterP.v. *)
 From Coq Require Import List NArith ZArith Arith.
 From WS Require Import Base.Words Model.Mask Model.Frame Model.Proto Model.Writer Model.RefDecoder Model.Window
-  Model.Reader Model.Script Proofs.MaskP Proofs.WriterP Proofs.TrimWindowP Proofs.RoundTripP.
+  Model.Reader Model.Script Model.ScriptZ Gen.Consts Proofs.ReaderZP Proofs.MaskP Proofs.WriterP Proofs.TrimWindowP Proofs.RoundTripP.
 Import ListNotations.
 Close Scope N_scope. Close Scope Z_scope. Open Scope nat_scope.
 
@@ -60,3 +60,25 @@ Example C01_nonvacuous :
   sw_run 4 ([[1;2]; [3]; []; [4;5;6]; [7;8;9;10;11]; [12]])%N = [9;10;11;12]%N /\
   trim_run [] ([[1]; [2;3]; [4;5;6;7;8;9]; [10]])%N = ([[1;2;3]; [4;5]; [6]], [7;8;9;10])%N.
 Proof. vm_compute. split; reflexivity. Qed.
+
+
+(* ---- receiving side of a COMPRESSED round trip, under an explicit contract between deflater and inflater ----
+   If inflating what the deflater made of [plain] (with the same dictionary, followed by 00 00 ff ff) gives [plain] back — for
+   every dictionary of at most one window — then every stream whose compressed messages carry deflate_body dict_i plain_i, in
+   any fragmentation, with control frames anywhere, read with any buffer sizes, on either role, with or without context
+   takeover, is delivered as exactly the plain_i.  (The sending side is C02_decodes: what an independent decoder reassembles
+   from the Writer's frames is what the compressor emitted, for every compressor behaviour.) *)
+Theorem C01_compressed_delivery : forall (inflate : bytes -> bytes -> bytes * istatus) (deflate_body : bytes -> bytes -> bytes),
+  (forall dict plain, (length dict <= Z.to_nat c_windowSize)%nat -> inflate dict (deflate_body dict plain ++ c_deflateMessageTail) = (plain, INeedMore)) ->
+  forall cfg co ms plains sizes e,
+  rc_co cfg = Some co -> Forall (fun zm => wf_smsg (zm_m zm)) ms ->
+  carries deflate_body (reader_takeover (rc_role cfg) co) [] ms plains ->
+  length sizes = length ms -> Forall (fun n => 0 < n)%nat sizes ->
+  let masked := role_eqb (rc_role cfg) Server in
+  let r := run cfg inflate (-1)%Z (enc_zscript masked ms) e (read_ops sizes) in
+  fst r = plain_obs ms plains /\
+  r_replies (snd r) = expected_pongs_written (map zm_m ms) /\
+  r_pongs (snd r) = expected_pong_notes (map zm_m ms) /\
+  r_inq (snd r) = [] /\ r_closed (snd r) = false.
+Proof. exact reader_valid_zstream_contract. Qed.
+Print Assumptions C01_compressed_delivery.
